@@ -14,6 +14,7 @@ import (
 	"strings"
 	"sync"
 
+	"github.com/skx/evalfilter/v2/ast"
 	"github.com/skx/evalfilter/v2/code"
 	"github.com/skx/evalfilter/v2/environment"
 	"github.com/skx/evalfilter/v2/lexer"
@@ -50,6 +51,11 @@ type Eval struct {
 
 	// user-defined functions
 	functions map[string]environment.UserFunction
+
+	// compiled holds the function-definitions which have been compiled
+	// in the current call to Prepare, so that a definition the compiler
+	// reaches more than once is only compiled once.
+	compiled map[*ast.FunctionDefinition]environment.UserFunction
 
 	// Mutex to allow concurrent runs
 	mutex sync.Mutex
@@ -142,6 +148,7 @@ func (e *Eval) Prepare(flags ...[]byte) error {
 	e.constants = nil
 	e.instructions = nil
 	e.functions = make(map[string]environment.UserFunction)
+	e.compiled = make(map[*ast.FunctionDefinition]environment.UserFunction)
 
 	//
 	// Compile the program to bytecode
